@@ -10,6 +10,7 @@ EXTENDS Table, FiniteSetsExt, SequencesExt
 \* a key specification is <<"col", name>> or <<"fn", f>> with f from the menu of computed keys
 KeyVal(row, ks) == IF ks[1] = "col" THEN row[ks[2]]
                    ELSE CASE ks[2] = "ident_a" -> row.a                       \* lambda a: a
+                          [] ks[2] = "ident_b" -> row.b                       \* lambda b: b
                           [] ks[2] = "pair_ab"  -> VTup(<<row.a, row.b>>)     \* lambda a, b: (a, b)
 Key(row, kss) == [k \in 1..Len(kss) |-> KeyVal(row, kss[k])]
 Match(l, r, lk, rk) == \A k \in 1..Len(lk) : KeyEq(KeyVal(l, lk[k]), KeyVal(r, rk[k]))
